@@ -56,6 +56,7 @@ impl GenCfg {
                 ValueClass::Sparse,
                 ValueClass::FarCluster,
                 ValueClass::FarClusterMixed,
+                ValueClass::TinyScale,
             ],
             dims: small_dims(),
             max_indexes: 2,
